@@ -298,5 +298,21 @@ pub const MANY_RULES_EXTRA: &str = " a = { \"a\" } b = { \"b\" } c = { a ~ b } d
 pub fn many_rules_bodies(max: usize) -> Vec<String> {
     let leaves = ["a", "b", "c", "d", "e", "f", "g", "many", "mid", "top", "\"a\"", "\"!\""];
     let unary = [("(", ")?"), ("(", ")*"), ("!(", ")"), ("&(", ")")];
-    bodies_by_size(&leaves, &unary, max).into_iter().flatten().collect()
+    let mut v: Vec<String> = bodies_by_size(&leaves, &unary, max).into_iter().flatten().collect();
+    // nested predicates with token-producing rules before / after the inner one
+    let rl = ["a", "b", "c", "d", "e", "g"];
+    for p1 in ["&", "!"] {
+        for p2 in ["&", "!"] {
+            for x in rl {
+                for y in rl {
+                    v.push(format!("{p1}({p2}{x} ~ {y}) ~ {y}"));
+                    v.push(format!("{p1}({p2}{x} ~ {y})"));
+                    v.push(format!("{p1}(({p2}{x})? ~ {y}) ~ ANY"));
+                    v.push(format!("{p1}({y} ~ {p2}{x} ~ {y}) ~ {y}?"));
+                    v.push(format!("({p1}({p2}{x} ~ {y}) ~ {y})*"));
+                }
+            }
+        }
+    }
+    v
 }
